@@ -92,6 +92,9 @@ func (w *World) C19Discoverable(r *hv.Rand) {
 		if i%4 == 3 {
 			a = Addr("10.1.9.9", 4999)
 		}
+		if i%4 == 2 {
+			a = Addr(fmt.Sprintf("2001:db8:%x::%x", i, i+1), 4000+i)
+		}
 		out, _ := q.Step(a, hello, "ClientHello", nil)
 		if len(out) != 1 {
 			fail("C19:honest-hello-unanswered", "a well-formed ClientHello got no ServerHello")
@@ -110,6 +113,7 @@ func (w *World) C19Discoverable(r *hv.Rand) {
 	// --- cookies presented from elsewhere
 	type variant struct {
 		name   string
+		base   func() *net.UDPAddr // the address the cookie is minted for (nil: a fresh IPv4 address)
 		from   func(a *net.UDPAddr) *net.UDPAddr
 		mutate func(w2 *WB) []byte
 		rotate bool
@@ -119,21 +123,38 @@ func (w *World) C19Discoverable(r *hv.Rand) {
 	okpub, _ := other.Public.MarshalBinary()
 	same := func(a *net.UDPAddr) *net.UDPAddr { return a }
 	vs := []variant{
-		{"another port", func(a *net.UDPAddr) *net.UDPAddr { return Addr(a.IP.String(), a.Port+1) }, nil, false, false},
-		{"another ip", func(a *net.UDPAddr) *net.UDPAddr { return Addr("10.7.7.7", a.Port) }, nil, false, false},
-		{"another ip and port", func(a *net.UDPAddr) *net.UDPAddr { return Addr("10.7.7.8", a.Port+7) }, nil, false, false},
-		{"port differing only in the high byte", func(a *net.UDPAddr) *net.UDPAddr { return Addr(a.IP.String(), a.Port^0x100) }, nil, false, false},
-		{"another client KEM key in the message", same, func(x *WB) []byte { m := append([]byte(nil), x.CAck...); copy(m[36:836], okpub); return m }, false, false},
-		{"cookie of another handshake (other address)", same, nil, false, false},
-		{"after cookie-key rotation", same, nil, true, false},
-		{"cookie with its first bit flipped", same, func(x *WB) []byte { m := append([]byte(nil), x.CAck...); m[836] ^= 0x80; return m }, false, false},
-		{"cookie with a bit of the sealed secret flipped", same, func(x *WB) []byte { m := append([]byte(nil), x.CAck...); m[836+17] ^= 0x04; return m }, false, false},
-		{"cookie with a bit of its tag flipped", same, func(x *WB) []byte { m := append([]byte(nil), x.CAck...); m[836+40] ^= 0x01; return m }, false, false},
-		{"cookie with its last bit flipped", same, func(x *WB) []byte { m := append([]byte(nil), x.CAck...); m[899] ^= 0x01; return m }, false, false},
-		{"one bit of the client KEM key flipped (AD component)", same, func(x *WB) []byte { m := append([]byte(nil), x.CAck...); m[36+5] ^= 0x01; return m }, false, false},
-		{"the neighbouring port below", func(a *net.UDPAddr) *net.UDPAddr { return Addr(a.IP.String(), a.Port-1) }, nil, false, false},
-		{"the same port on a neighbouring ip", func(a *net.UDPAddr) *net.UDPAddr { return Addr("10.0.0.2", a.Port) }, nil, false, false},
-		{"unchanged (control)", same, nil, false, true},
+		{"another port", nil, func(a *net.UDPAddr) *net.UDPAddr { return Addr(a.IP.String(), a.Port+1) }, nil, false, false},
+		{"another ip", nil, func(a *net.UDPAddr) *net.UDPAddr { return Addr("10.7.7.7", a.Port) }, nil, false, false},
+		{"another ip and port", nil, func(a *net.UDPAddr) *net.UDPAddr { return Addr("10.7.7.8", a.Port+7) }, nil, false, false},
+		{"port differing only in the high byte", nil, func(a *net.UDPAddr) *net.UDPAddr { return Addr(a.IP.String(), a.Port^0x100) }, nil, false, false},
+		{"another client KEM key in the message", nil, same, func(x *WB) []byte { m := append([]byte(nil), x.CAck...); copy(m[36:836], okpub); return m }, false, false},
+		{"cookie of another handshake (other address)", nil, same, nil, false, false},
+		{"after cookie-key rotation", nil, same, nil, true, false},
+		{"cookie with its first bit flipped", nil, same, func(x *WB) []byte { m := append([]byte(nil), x.CAck...); m[836] ^= 0x80; return m }, false, false},
+		{"cookie with a bit of the sealed secret flipped", nil, same, func(x *WB) []byte { m := append([]byte(nil), x.CAck...); m[836+17] ^= 0x04; return m }, false, false},
+		{"cookie with a bit of its tag flipped", nil, same, func(x *WB) []byte { m := append([]byte(nil), x.CAck...); m[836+40] ^= 0x01; return m }, false, false},
+		{"cookie with its last bit flipped", nil, same, func(x *WB) []byte { m := append([]byte(nil), x.CAck...); m[899] ^= 0x01; return m }, false, false},
+		{"one bit of the client KEM key flipped (AD component)", nil, same, func(x *WB) []byte { m := append([]byte(nil), x.CAck...); m[36+5] ^= 0x01; return m }, false, false},
+		{"the neighbouring port below", nil, func(a *net.UDPAddr) *net.UDPAddr { return Addr(a.IP.String(), a.Port-1) }, nil, false, false},
+		{"the same port on a neighbouring ip", nil, func(a *net.UDPAddr) *net.UDPAddr { return Addr("10.0.0.2", a.Port) }, nil, false, false},
+		{"unchanged (control)", nil, same, nil, false, true},
+		// IPv6 sources: the address bytes hashed into the AD are the 16 bytes the socket reports
+		{"IPv6: another address in the same /64", w.NextAddr6, func(a *net.UDPAddr) *net.UDPAddr { return Addr("2001:db8::ee:1", a.Port) }, nil, false, false},
+		{"IPv6: the last byte of the address differs", w.NextAddr6, func(a *net.UDPAddr) *net.UDPAddr {
+			ip := append(net.IP(nil), a.IP...)
+			ip[15] ^= 1
+			return &net.UDPAddr{IP: ip, Port: a.Port}
+		}, nil, false, false},
+		{"IPv6: another prefix", w.NextAddr6, func(a *net.UDPAddr) *net.UDPAddr { return Addr("2001:db9:1::1", a.Port) }, nil, false, false},
+		{"IPv6: the first byte of the address differs", w.NextAddr6, func(a *net.UDPAddr) *net.UDPAddr {
+			ip := append(net.IP(nil), a.IP...)
+			ip[0] ^= 0x10
+			return &net.UDPAddr{IP: ip, Port: a.Port}
+		}, nil, false, false},
+		{"IPv6: same address, another port", w.NextAddr6, func(a *net.UDPAddr) *net.UDPAddr { return &net.UDPAddr{IP: a.IP, Port: a.Port + 1} }, nil, false, false},
+		{"IPv6: unchanged (control)", w.NextAddr6, same, nil, false, true},
+		{"IPv4-mapped IPv6 source: another mapped host", func() *net.UDPAddr { return Addr("::ffff:10.4.4.4", w.NextAddr().Port) }, func(a *net.UDPAddr) *net.UDPAddr { return Addr("::ffff:10.4.4.5", a.Port) }, nil, false, false},
+		{"IPv4-mapped IPv6 source: unchanged (control)", func() *net.UDPAddr { return Addr("::ffff:10.4.4.4", w.NextAddr().Port) }, same, nil, false, true},
 	}
 	q.Emit("discoverable-hello-flood", fmt.Sprintf("%d ClientHellos from many addresses and repeated from one; table sizes after every step", n+10), ok, sig, what, true)
 	for _, v := range vs {
@@ -142,6 +163,9 @@ func (w *World) C19Discoverable(r *hv.Rand) {
 		del := func(from *net.UDPAddr, d []byte, what string) []Dgram { out, _ := q.Step(from, d, what, nil); return out }
 		ok, sig, what := true, "", ""
 		a := w.NextAddr()
+		if v.base != nil {
+			a = v.base()
+		}
 		// run CH/SH white box without delivering the ClientAck
 		x, err := newWBUntilAck(srv, del, ccfg, a)
 		if err != nil {
